@@ -20,6 +20,8 @@ def show_case(c):
     """human-readable form of a case for evidence samples and replay files"""
     if "text" in c and "opts" in c:
         return f"options={c['opts']} program={c['text']!r}"
+    if "text" in c:
+        return f"program={c['text']!r} ({c.get('kind', '')} {c.get('name', '')})"
     return c["req"]
 
 
@@ -273,6 +275,43 @@ register_b09(
     extra_suites=[{"name": "cli", "relevant": lambda c: True, "oracle": OB.c11_cli}],
     lean_extra=["CocoVerif.Model.Cli"],
 )
+
+register_b09(
+    "C10", ["CocoVerif.Props.C10"], OB.c10, OB.c10_classify,
+    "every converted program of the transpiler suite x default_str_storage in {32, 80, 255, 1} x per-name size maps x "
+    "initialize_vars: DIM statements are read from the real output (identifier, dimensions, STRING size) and compared with the "
+    "source's DIM statements read independently; variables occur in every position the generator produces (only inside function "
+    "arguments, only as READ/INPUT targets, only inside VARPTR, only as implicit arrays); distinct = distinct request",
+    assumptions=["a comment containing `*)` makes the rest of the line unreadable for the oracle (C07 finding): such cases are skipped"],
+)
+
+register_b09(
+    "C07", ["CocoVerif.Props.C07"], OB.c07, OB.c07_classify, 
+    "every converted program of the transpiler suite (grammar-directed programs over all statement kinds, the bundled examples, "
+    "unit-test inputs, mutated programs, all option sets): the user's procedure in the real output is parsed with an independent "
+    "BASIC09 statement/expression grammar (harness/b09parse.py): labels, backslash-separated complete statements, balanced "
+    "IF/ELSE/ENDIF and LOOP/EXITIF/ENDEXIT/ENDLOOP, every operator and call with all operands, closed strings and comments, no "
+    "leaked object; distinct = distinct request",
+    tie=OB.c07_tie,
+    assumptions=["FOR/NEXT pairing is not checked (the source may branch into loops); type correctness is not part of the property"],
+)
+
+import suite_names  # noqa: E402
+
+PROPS["C09"] = {
+    "lean": ["CocoVerif.Props.C09"],
+    "lean_extra": ["CocoVerif.Model.Names"],
+    "suites": [{"name": "names", "relevant": lambda c: True, "oracle": suite_names.oracle}],
+    "search": None,
+    "rule": "all 26 one-letter names, 120 (thorough: all 936) two-character names and sampled longer names up to 6 characters, in "
+            "25 one-line templates covering every position a variable can occupy (assignment target, expression, FOR, NEXT, "
+            "READ/INPUT target, DIM, VARPTR, subscript on either side) for the four kinds; the identifier the real convert() "
+            "emitted is read back and compared with Model.Names.xl and with Color BASIC's identity rule; names the grammar refuses "
+            "(keyword prefixes) are outside the domain; distinct = distinct (template, name)",
+    "trusted": ["modelled by hand: the three visitor lines that truncate names (visit_var, visit_str_var, BasicArrayRef); the "
+                "grammar's var / str_var regular expressions run as real code"],
+    "assumptions": ["names match the grammar's var / str_var pattern: a letter followed by letters and digits"],
+}
 
 import suite_det  # noqa: E402
 
